@@ -29,7 +29,10 @@ Definition fstate_of (par : nat -> Q) (s : mstate) (f : nat) : fstate :=
 (** evaluated points come from Python dictionaries: unique keys *)
 Definition op_nodup (o : mop) : Prop :=
   match o with MEval _ p => NoDupKeys nat p | MProx _ p _ => NoDupKeys nat p | MLinOpt _ dir => NoDupKeys nat dir
-  | MInexact _ p _ _ => NoDupKeys nat p | _ => True end.
+  | MInexact _ p _ _ => NoDupKeys nat p | MEpsSub _ p => NoDupKeys nat p
+  | MBregGrad _ gx0 sx0 _ => NoDupKeys nat gx0 /\ NoDupKeys nat sx0 | MBregProx _ _ sx0 _ => NoDupKeys nat sx0
+  | MInexactProx _ x0 _ _ => NoDupKeys nat x0
+  | _ => True end.
 
 (** worlds without an exact line search *)
 Lemma no_ls {E : ips} (o : nat -> E -> E * R) (l : nat -> E -> list E -> E) f x0 ds :
@@ -56,6 +59,63 @@ Qed.
 Lemma no_lmo {E : ips} (G : nat -> E * E * R -> Prop) (l : nat -> E -> E * R) f d :
   false = true -> G f (fst (l f d), vneg d, snd (l f d)).
 Proof. discriminate. Qed.
+
+(** the oracle's own output is an epsilon-subgradient of accuracy 0 (the conjugate is attained at the point itself) *)
+Definition exact_epssub {E : ips} (o : nat -> E -> E * R) : nat -> E -> (E * R) * (E * R) :=
+  fun f x => ((fst (o f x), 0), (x, snd (o f x))).
+Lemma exact_epssub_spec {E : ips} (o : nat -> E -> E * R) (G : nat -> E * E * R -> Prop)
+    (Ho : forall f x, G f (x, fst (o f x), snd (o f x))) f x0 :
+  G f (x0, fst (o f x0), snd (o f x0)) /\
+  snd (o f x0) + (inner (fst (o f x0)) x0 - snd (o f x0)) - inner (fst (o f x0)) x0 <= 0.
+Proof. split; [apply Ho|lra]. Qed.
+
+(** worlds without mirror maps / Bregman proximal operators *)
+Lemma no_mirror {E : ips} (G : nat -> E * E * R -> Prop) (m : nat -> E -> E * R) h s :
+  false = true -> G h (fst (m h s), s, snd (m h s)).
+Proof. discriminate. Qed.
+Lemma no_bprox {E : ips} (G : nat -> E * E * R -> Prop) (b : nat -> nat -> R -> E -> (E * E) * (R * R)) h f gamma s0 :
+  false = true -> 0 < gamma ->
+  G f (fst (fst (b h f gamma s0)), snd (fst (b h f gamma s0)), fst (snd (b h f gamma s0))) /\
+  G h (fst (fst (b h f gamma s0)), vsub s0 (vscal gamma (snd (fst (b h f gamma s0)))), snd (snd (b h f gamma s0))).
+Proof. discriminate. Qed.
+
+(** an approximate proximal operator every world has: 'PD_gapI' / 'PD_gapII' stay at x0 (x = w = x0, v = gx = the oracle's
+    output there), 'PD_gapIII' takes the explicit step x = x0 - gamma g (w = x0, v = (x0 - x) / gamma = g); the accuracy
+    returned is the value of the criterion *)
+Definition exact_iprox {E : ips} (o : nat -> E -> E * R) : nat -> ipopt -> R -> E -> ((E * E * R) * (E * E * R)) * R :=
+  fun f opt gamma x0 =>
+    let g := fst (o f x0) in let v0 := snd (o f x0) in
+    match opt with
+    | PDgapI => (((x0, g, v0), (x0, g, v0)),
+                 nrm2 (vadd (vsub x0 x0) (vscal gamma g)) / 2 + gamma * (v0 - v0 - inner g (vsub x0 x0)))
+    | PDgapII => (((x0, g, v0), (x0, g, v0)), nrm2 (vadd (vsub x0 x0) (vscal gamma g)) / 2)
+    | PDgapIII => let x := vsub x0 (vscal gamma g) in
+                  (((x0, g, v0), (x, fst (o f x), snd (o f x))),
+                   gamma * (snd (o f x) - v0 - inner (vscal (1 / gamma) (vsub x0 x)) (vsub x x0)))
+    end.
+Lemma exact_iprox_spec {E : ips} (o : nat -> E -> E * R) (G : nat -> E * E * R -> Prop)
+    (Ho : forall f x, G f (x, fst (o f x), snd (o f x)))
+    (Hv : forall f x g g' v, G f (x, g, v) -> veq g g' -> G f (x, g', v)) f opt gamma x0 :
+  0 < gamma ->
+  let r := exact_iprox o f opt gamma x0 in
+  let w := fst (fst (fst (fst r))) in let v := snd (fst (fst (fst r))) in let fw := snd (fst (fst r)) in
+  let x := fst (fst (snd (fst r))) in let gx := snd (fst (snd (fst r))) in let fx := snd (snd (fst r)) in
+  G f (x, gx, fx) /\
+  match opt with
+  | PDgapI => G f (w, v, fw) /\
+              nrm2 (vadd (vsub x x0) (vscal gamma v)) / 2 + gamma * (fx - fw - inner v (vsub x w)) <= snd r
+  | PDgapII => nrm2 (vadd (vsub x x0) (vscal gamma gx)) / 2 <= snd r
+  | PDgapIII => G f (w, vscal (1 / gamma) (vsub x0 x), fw) /\
+                gamma * (fx - fw - inner (vscal (1 / gamma) (vsub x0 x)) (vsub x w)) <= snd r
+  end.
+Proof.
+  intros Hg. destruct opt; cbn [exact_iprox fst snd].
+  - split; [apply Ho|]. split; [apply Ho|apply Rle_refl].
+  - split; [apply Ho|apply Rle_refl].
+  - split; [apply Ho|]. split; [|apply Rle_refl].
+    apply (Hv f x0 (fst (o f x0))); [apply Ho|].
+    intros w. rewrite inner_scal_l, !inner_sub_l, inner_scal_l. field. lra.
+Qed.
 
 (** what it means for [ie] to be an inexact oracle for the map [g] (the gradient): within the accuracy, in the
     absolute or the relative sense *)
@@ -99,7 +159,8 @@ Section Compose.
   Proof.
     induction ops as [|o ops IH]; intros s Hnd Hs; cbn [mrun fold_left]; [exact Hs|].
     inversion Hnd as [|? ? Ho Hnd']; subst. apply (IH (mstep s o) Hnd').
-    intros f t Hin. destruct o as [|g p|g|g p gamma|g dir|g p rel eps|g x0 dirs]; cbn [mstep m_samples] in Hin.
+    intros f t Hin. destruct o as [|g p|g|g p gamma|g dir|g p rel eps|g x0 dirs|g p|h gx0 sx0 gamma|h g sx0 gamma|g x0 gamma opt];
+      cbn [mstep m_samples] in Hin.
     - apply (Hs f t Hin).
     - apply in_app_or in Hin as [Hin|[Heq|[]]]; [apply (Hs f t Hin)|]. injection Heq as <- <-. cbn [fst snd].
       split; [exact Ho|]. split; [apply NoDupKeys_single|apply NoDupKeys_single].
@@ -115,6 +176,28 @@ Section Compose.
       split; [exact Ho|]. split; [apply NoDupKeys_single|apply NoDupKeys_single].
     - apply in_app_or in Hin as [Hin|[Heq|[]]]; [apply (Hs f t Hin)|]. injection Heq as <- <-. cbn [fst snd].
       split; [apply NoDupKeys_single|]. split; [apply NoDupKeys_single|apply NoDupKeys_single].
+    - apply in_app_or in Hin as [Hin|[Heq|[Heq|[]]]]; [apply (Hs f t Hin)| |]; injection Heq as <- <-; cbn [fst snd].
+      + split; [exact Ho|]. split; [apply NoDupKeys_single|apply NoDupKeys_single].
+      + split; [apply NoDupKeys_single|]. split; [apply NoDupKeys_single|apply NoDupKeys_single].
+    - apply in_app_or in Hin as [Hin|[Heq|[]]]; [apply (Hs f t Hin)|]. injection Heq as <- <-. cbn [fst snd].
+      destruct Ho as [Hog Hos].
+      split; [apply NoDupKeys_single|split; [|apply NoDupKeys_single]].
+      unfold breg_dual. apply NoDupKeys_prune. apply pND_sub; [exact Hos|]. apply pND_scal. exact Hog.
+    - apply in_app_or in Hin as [Hin|[Heq|[Heq|[]]]]; [apply (Hs f t Hin)| |]; injection Heq as <- <-; cbn [fst snd].
+      + split; [apply NoDupKeys_single|]. split; [apply NoDupKeys_single|apply NoDupKeys_single].
+      + split; [apply NoDupKeys_single|split; [|apply NoDupKeys_single]].
+        unfold breg_dual. apply NoDupKeys_prune. apply pND_sub; [exact Ho|]. apply pND_scal. apply NoDupKeys_single.
+    - destruct opt; cbn [mstep m_samples] in Hin.
+      + apply in_app_or in Hin as [Hin|[Heq|[Heq|[]]]]; [apply (Hs f t Hin)| |]; injection Heq as <- <-; cbn [fst snd];
+          (split; [apply NoDupKeys_single|]; split; [apply NoDupKeys_single|apply NoDupKeys_single]).
+      + apply in_app_or in Hin as [Hin|[Heq|[]]]; [apply (Hs f t Hin)|]. injection Heq as <- <-. cbn [fst snd].
+        split; [|split; [apply NoDupKeys_single|apply NoDupKeys_single]].
+        unfold ip2_point. apply NoDupKeys_prune. apply pND_add; [|apply NoDupKeys_single].
+        apply pND_sub; [exact Ho|]. apply pND_scal. apply NoDupKeys_single.
+      + apply in_app_or in Hin as [Hin|[Heq|[Heq|[]]]]; [apply (Hs f t Hin)| |]; injection Heq as <- <-; cbn [fst snd].
+        * split; [apply NoDupKeys_single|]. split; [apply NoDupKeys_single|apply NoDupKeys_single].
+        * split; [apply NoDupKeys_single|split; [|apply NoDupKeys_single]].
+          unfold ip3_grad. apply NoDupKeys_prune. apply pND_div. apply pND_sub; [exact Ho|apply NoDupKeys_single].
   Qed.
 
   (** Every sample the class generator sees is well formed and genuine at the values of the run. *)
@@ -193,7 +276,13 @@ Section Instances.
           (fun _ gamma x0 H Hg => Hres H gamma x0 Hg)
           (fun _ => false) (fun _ d => (d, 0)) (no_lmo _ _)
           (fun _ => ie) (fun _ => Hie)
-          (fun _ => hs) (fun _ => ls) (fun _ x0 ds H => Hls H x0 ds).
+          (fun _ => hs) (fun _ => ls) (fun _ x0 ds H => Hls H x0 ds)
+          (exact_epssub (fun _ x => (dgrad F x, dval F x)))
+          (exact_epssub_spec (fun _ x => (dgrad F x, dval F x)) (fun _ t => genuine_grad F t) dfn_orc_genuine)
+          (fun _ => false) (fun _ sd => (sd, 0)) (no_mirror _ _)
+          (fun _ _ => false) (fun _ _ _ sd => ((sd, sd), (0, 0))) (no_bprox _ _)
+          (exact_iprox (fun _ x => (dgrad F x, dval F x)))
+          (exact_iprox_spec (fun _ x => (dgrad F x, dval F x)) (fun _ t => genuine_grad F t) dfn_orc_genuine dfn_gen_veq).
   End DfnWorld.
 
   (** Any first-order method run on any real mu-strongly convex L-smooth function: every interpolation
@@ -260,7 +349,13 @@ Section Instances.
           (fun _ gamma x0 H Hg => Hres H gamma x0 Hg)
           (fun _ => false) (fun _ d => (d, 0)) (no_lmo _ _)
           (fun f _ _ x => sel x) (exact_inexact_bound (fun _ x => (sel x, val F x)))
-          (fun _ => false) (fun _ x0 _ => x0) (no_ls _ _).
+          (fun _ => false) (fun _ x0 _ => x0) (no_ls _ _)
+          (exact_epssub (fun _ x => (sel x, val F x)))
+          (exact_epssub_spec (fun _ x => (sel x, val F x)) (fun _ t => genuine_sub F t) fn_orc_genuine)
+          (fun _ => false) (fun _ sd => (sd, 0)) (no_mirror _ _)
+          (fun _ _ => false) (fun _ _ _ sd => ((sd, sd), (0, 0))) (no_bprox _ _)
+          (exact_iprox (fun _ x => (sel x, val F x)))
+          (exact_iprox_spec (fun _ x => (sel x, val F x)) (fun _ t => genuine_sub F t) fn_orc_genuine fn_gen_veq).
   End FnWorld.
 
   Theorem run_satisfies_convex (F : @fn E) (sel : E -> E) (Hsel : forall x, subgrad F x (sel x))
